@@ -5,7 +5,8 @@ import re
 IDS = ["alpha", "beta", "x1", "y2", "zed"]
 NUMS = ["0", "1", "42", "7", "15", "3.5"]      # parse_file -E prints numbers by value: keep spellings canonical
 PUNCT = ["+", "-", "*", "/", "<<", "==", "&&", ","]      # (":" "." are printed without spaces by parse_file -E: two of them would re-lex as one token)
-LITS = ['"s"', '"a b"', '"q\\"r"', '"back\\\\slash"', "'c'", "'\\''", "'\"'", '"it\'s"', '"x,y"', '"(p)"', '""']
+LITS = ['"s"', '"a b"', '"q\\"r"', '"back\\\\slash"', "'c'", "'\\''", "'\"'", '"it\'s"', '"x,y"', '"(p)"', '""',
+        '"http://host/a"', '"/*"', '"*/"', '"a /* b */ c"', '"// not a comment"', "'/'", '"#define"', '"\\\\"']     # comment openers and directive names inside literals
 
 TOK = re.compile(r"""[A-Za-z_][A-Za-z0-9_]*|\.?\d(?:[eEpP][+-]|[\w.'])*|"(?:\\.|[^"\\\n])*"|'(?:\\.|[^'\\\n])*'|<<=|>>=|<=>|->\*|\.\.\.|::|->|\+\+|--|<<|>>|<=|>=|==|!=|&&|\|\||\+=|-=|\*=|/=|%=|&=|\|=|\^=|##|\S""")
 
@@ -19,6 +20,7 @@ class Prog:
         self.lines = []
         self.macros = {}     # name -> (params|None, variadic)
         self.features = set()
+        self.live = {}       # statement label -> the macros defined where that statement stands (name -> (params|None, variadic))
 
 
 def gen_tokens(rng, prog, params, depth, allow_calls=True, n=None):
@@ -132,14 +134,16 @@ def gen_program(rng, n_defs=None, allow=("obj", "fn", "hash", "paste", "va", "va
             plist = ", ".join(params + (["..."] if variadic else []))
             text = "#define %s(%s) %s" % (name, plist, " ".join(body))
             if "multiline" in allow and rng.random() < 0.15 and len(body) > 2:
-                cut = text.rfind(" ", 0, len(text) - 2)
-                text = text[:cut] + " \\\n   " + text[cut + 1:]
+                # continue the definition on a second line, between two tokens (never inside a literal)
+                k = rng.randrange(1, len(body))
+                text = "#define %s(%s) %s \\\n   %s" % (name, plist, " ".join(body[:k]), " ".join(body[k:]))
                 p.features.add("continued-define")
             p.lines.append(text)
             p.macros[name] = (params, variadic)
         # interleave uses, #undef, redefinition, push/pop
         if rng.random() < 0.5:
             use = gen_tokens(rng, p, [], 2)
+            p.live["use%d" % len(p.lines)] = dict(p.macros)
             p.lines.append("use%d = %s ;" % (len(p.lines), " ".join(use)))
         r = rng.random()
         if "undef" in allow and r < 0.08 and p.macros:
@@ -147,14 +151,35 @@ def gen_program(rng, n_defs=None, allow=("obj", "fn", "hash", "paste", "va", "va
             p.lines.append("#undef %s" % victim)
             del p.macros[victim]
             p.features.add("undef")
-        elif "push" in allow and r < 0.14 and p.macros:
+        elif "push" in allow and r < 0.2 and p.macros:
             victim = rng.choice(sorted(p.macros))
+            form = rng.choice(["redefine", "redefine", "undef-only", "undefined-name", "nested", "untouched"])
+            if form == "undefined-name":
+                victim = "NEVER_DEFINED_%d" % len(p.lines)
             p.lines.append('#pragma push_macro("%s")' % victim)
-            p.lines.append("#undef %s" % victim)
-            p.lines.append("#define %s pushed_%s" % (victim, victim))
+            if form in ("redefine", "undef-only", "nested"):
+                p.lines.append("#undef %s" % victim)
+            if form in ("redefine", "undefined-name", "nested"):
+                p.lines.append("#define %s pushed_%s" % (victim, victim))
+            if form == "nested":
+                p.lines.append('#pragma push_macro("%s")' % victim)
+                p.lines.append("#undef %s" % victim)
+                p.lines.append("#define %s pushed_twice_%s" % (victim, victim))
+                p.live["deep%d" % len(p.lines)] = dict(p.macros, **{victim: (None, False)})
+                p.lines.append("deep%d = %s ;" % (len(p.lines), victim))
+                p.lines.append('#pragma pop_macro("%s")' % victim)
+            mid_live = dict(p.macros)
+            if form in ("redefine", "undefined-name", "nested"):
+                mid_live[victim] = (None, False)
+            elif form == "undef-only":
+                mid_live.pop(victim, None)
+            p.live["mid%d" % len(p.lines)] = mid_live
             p.lines.append("mid%d = %s ;" % (len(p.lines), victim))
             p.lines.append('#pragma pop_macro("%s")' % victim)
+            p.live["post%d" % len(p.lines)] = dict(p.macros)
+            p.lines.append("post%d = %s ;" % (len(p.lines), victim))     # the definition in force before the push is back (or none)
             p.features.add("push_pop")
+            p.features.add("push_pop-" + form)
     for j in range(rng.randrange(2, 6)):
         use = []
         for _ in range(rng.randrange(1, 4)):
@@ -181,6 +206,7 @@ def gen_program(rng, n_defs=None, allow=("obj", "fn", "hash", "paste", "va", "va
                     break
             p.features.add("multiline-call")
         text = " ".join(use)
+        p.live["out%d" % j] = dict(p.macros)
         p.lines.append("out%d = %s ;" % (j, text))
     return p
 
